@@ -172,7 +172,49 @@ def falsify(rnd, gen):
     return None
 
 
+def fill_results_normalised():
+    """MPSBackendImpl.fill_results hands every due observable a NORMALISED state -- also when badly prepared
+    atoms are padded back in and the trajectory's norm has decayed (noisy runs between jumps)"""
+    sys.path.insert(0, os.path.dirname(os.path.abspath(__file__)))
+    from native_util import patch_pulser_observable, make_sequence_data
+    patch_pulser_observable()
+    from emu_mps import MPSConfig
+    import emu_mps.mps_backend_impl as M
+    from pulser.backend import Observable
+    seen = []
+
+    class Spy(Observable):
+        @property
+        def _base_tag(self):
+            return "norm_probe"
+
+        def apply(self, *, state, **kw):
+            seen.append(float(state.norm()))
+            return float(state.norm())
+    for bad in (None, [False, True, False, False], [True, False, False, True]):
+        seen.clear()
+        n = 4
+        sd = make_sequence_data(n, 3, bad_atoms=bad, state_prep_error=0.1 if bad else 0.0)
+        cfg = MPSConfig(observables=[Spy(evaluation_times=[1.0 / 3, 2.0 / 3, 1.0])], log_level=50, optimize_qubit_ordering=False)
+        impl = M.create_impl(sd, cfg)
+        impl.init()
+        while not impl.is_finished():
+            impl.progress()
+            if impl.state is not None:
+                # what a noisy trajectory looks like between two jumps: the stored state has norm < 1
+                impl.state.factors[0] = impl.state.factors[0] * 0.8
+        wrong = [x for x in seen if abs(x - 1.0) > 1e-9]
+        if not seen or wrong:
+            return (f"fill_results with bad atoms {bad}: observables were evaluated {len(seen)} times on states of norm "
+                    f"{[round(x, 6) for x in seen]} (must be 1: each observable is defined on the normalised state)")
+    return None
+
+
 def main():
+    bad0 = fill_results_normalised()
+    if bad0:
+        print("REPRODUCED: " + bad0)
+        return 1
     seed = int(os.environ.get("VERIF_SEED", "0"))
     rnd = random.Random(seed)
     torch.manual_seed(seed)
